@@ -8,7 +8,7 @@ FUNCTIONS = ["ParameterList::{setParametersValues,setAllParametersValues,matchPa
              "createSubList (4),shareSubList (2),getCommonParametersWith,hasParameter,whichParameterHasName,getParameterValue,parameter,getParameter,copy ctor,operator=,reset}",
              "AbstractParametrizable::{setParametersValues,setAllParametersValues,matchParametersValues,setParameterValue,clone via copy}", "Parameter::{ctor,setValue}", "IntervalConstraint::isCorrect"]
 BOUNDS = ("lists over a pool of 3 names (quick) / 4 names (thorough): every pair of name subsets, the source in natural, reversed and rotated order; each target parameter unconstrained, closed-interval or open-interval "
-          "constrained with symbolic bounds; all real values (quick: the large jobs assume values > 0 to skip the constructor's sign split, a second job runs every sign over a pool of 2 names; thorough: every sign over 3 names); "
+          "constrained with symbolic bounds; all real values (quick: the large jobs assume values > 0 to skip the constructor's sign split, a second job runs every sign over a pool of 2 names); "
           "one operation per path from an arbitrary list state; deletions/sub-lists by every subset of names in both orders and by the corresponding unsorted index sets")
 OUTSIDE = ["lists with more than 4 parameters", "sequences of several bulk operations on one path (each operation is checked from an arbitrary state, which covers sequences as long as the state space is lists of <=4 parameters)",
            "non-zero parameter precision (excluded by the property)", "getMatchingParameterNames (tokeniser based; see C17)", "printParameters"]
@@ -24,6 +24,6 @@ JOBS = [
         desc="add refuses an existing name, include/share turn into value updates, names stay unique, copies vs shared objects"),
     Job("lookup-delete-sublist", "C02.cpp", ["HLO=2", "HHI=3", "NPOOL=3", "CKINDS=1", "POSVALS"], thorough_defines=["HLO=2", "HHI=3", "NPOOL=4", "CKINDS=1", "POSVALS"], budget_s=300, thorough_budget_s=3000,
         desc="lookups, deletions by names / unsorted index sets, sub-lists (copied and shared), common parameters, copy/assign/clone independence"),
-    Job("any-sign", "C02.cpp", ["HLO=0", "HHI=3", "NPOOL=2", "CKINDS=2"], thorough_defines=["HLO=0", "HHI=3", "NPOOL=3", "CKINDS=1"], budget_s=300, thorough_budget_s=3400,
+    Job("any-sign", "C02.cpp", ["HLO=0", "HHI=3", "NPOOL=2", "CKINDS=2"], budget_s=300,
         desc="the same four harnesses with values of every sign (including 0, the constructor's initial value)"),
 ]
